@@ -159,7 +159,6 @@ func (d *dir) RepoGet(ctx context.Context, repoStr string) (Repo, error) {
 	}
 	dr.uploads = cache.New[string, *dirRepoUpload](uploadCacheOpts)
 	dr.wgBlock <- struct{}{}
-	d.repos.Set(repoStr, &dr)
 	statDir, err := os.Stat(dr.path)
 	if err == nil && statDir.IsDir() {
 		statIndex, errIndex := os.Stat(filepath.Join(dr.path, indexFile))
@@ -170,6 +169,8 @@ func (d *dir) RepoGet(ctx context.Context, repoStr string) (Repo, error) {
 		}
 	}
 	dr.wg.Add(1)
+	// the repo is only added to the cache once it is initialized and held by this request, background jobs find it there
+	d.repos.Set(repoStr, &dr)
 	return &dr, nil
 }
 
